@@ -557,6 +557,14 @@ class Interp:
                 to = rv["to"]
                 if to in ("f64", "f32"):
                     return Flt(float(v.v))
+                m_ = re.match(r"^([iu])(8|16|32|64|128|size)$", to or "")
+                if m_ and v.ty not in ("bool", "char"):
+                    # `as` between integer types keeps the low bits: exact, and recorded when the value did not fit
+                    bits = 64 if m_.group(2) == "size" else int(m_.group(2))
+                    lo, hi = (-(1 << (bits - 1)), (1 << (bits - 1)) - 1) if m_.group(1) == "i" else (0, (1 << bits) - 1)
+                    if not lo <= v.v <= hi:
+                        p.events.append(("i2i", v.v, to))
+                        return Int((v.v - lo) % (1 << bits) + lo, to)
                 return Int(v.v, "bool" if to == "bool" else ("char" if to == "char" else to))
             if isinstance(v, Flt):
                 to = rv["to"]
